@@ -1,6 +1,7 @@
 import CwPlus.Lemmas.Cw3Flex
 import CwPlus.Lemmas.Cw3FlexInv
 import CwPlus.Lemmas.Cw3FlexAt
+import CwPlus.Lemmas.Cw3StatusTotal
 import CwPlus.Props.C09
 /-!
 # C06 — cw3: ballots are snapshot weights (cw3-flex-multisig part)
@@ -768,6 +769,17 @@ theorem flex_tally_le_total {ext : Ext} {fuel : Nat} {w : World} {b : Block} (hr
   rw [weightSum_eq] at h
   rw [hr.totalInv.snap.inv.wf.tally id p hp]
   exact h
+
+/-- … so the four tally counters together fit `u64` (`Proposal.Fits`): the proviso of `C05Flex.query_always_answers`
+and `C15.failed_deposit_recoverable_reachable` holds for every proposal created outside the same-block situation, and
+its `current_status` never fails, at any block. -/
+theorem flex_fits {ext : Ext} {fuel : Nat} {w : World} {b : Block} (hr : ReachableSnap ext fuel w b)
+    {id : Nat} {p : Proposal} (hp : w.flex.core.proposals.get? id = some p) (hc : CleanStart w.log id p.startHeight) :
+    p.Fits ∧ ∀ blk, ∃ st, p.currentStatus blk = .ok st := by
+  have h1 := flex_tally_le_total hr hp hc
+  have h2 := (flex_sum_ballots_le_total hr hp hc).2.1
+  have hf : p.Fits := by unfold Proposal.Fits; omega
+  exact ⟨hf, fun blk => reachable_statusInv hr.reachableAt.reachable id p hp hf blk⟩
 
 /-- **C06 "the proposer's ballot and the total are snapshot values", cw3-flex, history level** (clause c).  On every
 history with non-decreasing blocks, for every proposal whose `Propose` was not preceded by a group write in its own
